@@ -1478,6 +1478,24 @@ func (e *Engine) stringEq(st *State, a, b StringV) *Term {
 	x, ok1 := e.stringBytes(st, a)
 	y, ok2 := e.stringBytes(st, b)
 	if !ok1 || !ok2 {
+		// symbolic lengths (both backed by objects): equal lengths and equal bytes below the length
+		if a.isObj && b.isObj && !a.opaque && !b.opaque {
+			na, oka := e.maxValue(st, a.ln, 512)
+			nb, okb := e.maxValue(st, b.ln, 512)
+			if oka && okb {
+				n := na
+				if nb < n {
+					n = nb
+				}
+				res := Eq(a.ln, b.ln)
+				for k := uint64(0); k < n; k++ {
+					ca := term(e.load(st, Pointer{obj: a.obj, off: Bin("bvadd", a.off, BV(64, k))}, types.Typ[types.Uint8], token.NoPos))
+					cb := term(e.load(st, Pointer{obj: b.obj, off: Bin("bvadd", b.off, BV(64, k))}, types.Typ[types.Uint8], token.NoPos))
+					res = And(res, Or(Cmp("bvuge", BV(64, k), a.ln), Eq(ca, cb)))
+				}
+				return res
+			}
+		}
 		panic(unsupported{"string equality on opaque/symbolic-length strings"})
 	}
 	if len(x) != len(y) {
@@ -2204,6 +2222,34 @@ func (e *Engine) builtin(st *State, name string, args []Value, call *ssa.Call, p
 			o.keys, o.vals = nk, nv
 		}
 		return TupleV{}
+	case "clear":
+		switch x := args[0].(type) {
+		case MapV:
+			if x.obj != 0 {
+				o := st.wobj(x.obj)
+				o.keys, o.vals = nil, nil
+			}
+			return TupleV{}
+		case SliceV:
+			if x.obj == 0 {
+				return TupleV{}
+			}
+			n, ok := e.maxValue(st, x.ln, 4096)
+			if !ok {
+				panic(unsupported{"clear of a slice with unbounded length"})
+			}
+			et := call.Call.Args[0].Type().Underlying().(*types.Slice).Elem()
+			for k := uint64(0); k < n; k++ {
+				p := Pointer{obj: x.obj, off: Bin("bvmul", Bin("bvadd", x.off, BV(64, k)), BV(64, uint64(x.es)))}
+				if x.ln.k {
+					e.store(st, p, et, zeroValue(et), pos)
+				} else {
+					old := e.load(st, p, et, pos)
+					e.store(st, p, et, e.iteValue(Cmp("bvult", BV(64, k), x.ln), zeroValue(et), old), pos)
+				}
+			}
+			return TupleV{}
+		}
 	case "ssa:wrapnilchk":
 		if p, ok := args[0].(Pointer); ok && p.obj == 0 {
 			e.goPanic(st, "value method called using nil pointer", pos)
